@@ -240,6 +240,12 @@ func NewRaftNodeWithLogger(opts *ClusteringOptions, store storage.ManagedStore, 
 		return nil, fmt.Errorf("file snapshot store: %s", err)
 	}
 
+	if err = node.reconcileStateWithLog(); err != nil {
+		node.transport.Close()
+		node.raftLog.Close()
+		return nil, fmt.Errorf("reconciling the FSM state with the raft log: %s", err)
+	}
+
 	// instantiate the raft server
 	node.raft, err = raft.NewRaft(node.raftConfig, node, logStore, node.raftLog, node.snapshots, node.transport)
 	if err != nil {
